@@ -14,7 +14,8 @@ CLAIMED = {
         design_ref='7/C01', note=COMMON_NOTE, technique='Lean 4 proof over executable model + differential correspondence'),
     'C02': dict(
         text='Theorems (SfxProps.C02): each checked/saturating/wrapping/overflowing form of the modelled operations equals the documented function of one '
-             'exact result and has no debug-only panic; correspondence on the public API in both profiles.',
+             'exact result and has no debug-only panic; correspondence on the public API in both profiles. '
+             'Also proved and exercised (SfxProps/C02Ops.lean, request fprog): the operator trait impls of the plain types in every variant (by value / by reference / assigning, integer right- and left-hand sides, shifts with the 12 amount types, Sum/Product): each program of any length equals the documented run under both profiles (exact result wrapped in release, panic under checks exactly when it does not fit), and the release run is the Wrapping<F> run.',
         design_ref='7/C02', note=COMMON_NOTE, technique='Lean 4 proof over executable model + differential correspondence'),
     'C10': dict(
         text='Theorems (SfxProps.C10): encode has width/8 bytes, equals to_le_bytes and ignores the fractional-bit count; decode(encode a ++ rest) = (a, |rest|); '
@@ -33,7 +34,8 @@ CLAIMED = {
         text='Theorem SfxProps.C07.holds (full strength, all layouts, all operands): % = truncated remainder, rem_euclid = Euclidean remainder, '
              'div_euclid forms = the four documented functions of the exact Euclidean quotient, likewise for primitive-integer divisors (incl. the divisor '
              'whose fixed-point image does not fit and the unsigned-arithmetic tail of rem_euclid_int); zero divisor: None / documented panic; no check fires. '
-             'The div_euclid family was repaired in /repo (fix 44b358d) after the check reproduced the defect. Correspondence: 19 public methods, both profiles.',
+             'The div_euclid family was repaired in /repo (fix 44b358d) after the check reproduced the defect. Correspondence: 19 public methods, both profiles. '
+             'SfxProps/C07Forms.lean adds wrapping_rem_int / overflowing_rem_int (inherent and trait-provided), which the first version had missed (found by the coverage measurement).',
         design_ref='7/C07', note=COMMON_NOTE, technique='Lean 4 proof over executable model + differential correspondence'),
     'C18': dict(
         text='Theorem SfxProps.C18.holds: for every layout, every start value and every well-formed program of Wrapping<F> operations of ANY length, the modelled run '
@@ -49,7 +51,8 @@ CLAIMED = {
              'value-preserving and cannot overflow under its type-level bound, LossyFrom loses only fractional bits, and the bound is tight (bound_tight). Built on a '
              'proved specification of to_fixed_helper (neg/dir/bits/overflow, all shift amounts incl. >= 128). Correspondence: helper hook on all primitives, typed '
              'conversions for every family pair x {0, mid, n}^2 fractional bits and all 12 integer types + bool, both profiles. The From/LossyFrom admissibility table of '
-             'convert.rs is not yet regenerated by the translator (the predicate is stated in Lean by hand).',
+             'convert.rs is not yet regenerated by the translator (the predicate is stated in Lean by hand). '
+             'SfxProps/C04Prim.lean: the type-level From/LossyFrom impls between fixed-point types and primitives (int, bool, f32/f64; 287 impl rows extracted by the translator into GeneratedConv.lean and proved sound row by row), exact/floor/nearest-even as documented, instantiated per admissible pair by the harness.',
         design_ref='7/C04', note=COMMON_NOTE, technique='Lean 4 proof over executable model + differential correspondence'),
     'C05': dict(
         text='Theorem SfxProps.C05.holds (full strength, f32 and f64, all 507 layouts): float->fixed gives the grid value nearest to the exact float value (ties to even) under '
@@ -82,7 +85,8 @@ CLAIMED = {
              'release value, for every modelled call; theorem no_debug_only_panic_holds / more_families: the checked/saturating/wrapping/overflowing forms of arithmetic, rounding, remainders, '
              'Euclidean division, float conversions and Wrapping programs never set the flag (corollaries of C02 C05 C06 C07 C18; sqrt: C13). The tie to the code is the point of this check: the '
              'union corpus of the other properties (1.2 M requests in quick) is executed by the harness built WITH and WITHOUT debug assertions/overflow checks and both are compared with the '
-             'model projections. Parsing/formatting requests join the corpus once their models are merged. Defects D4, D5, D8 (profile-dependent) were found this way and repaired.',
+             'model projections. Parsing/formatting requests join the corpus once their models are merged. Defects D4, D5, D8 (profile-dependent) were found this way and repaired. '
+             'SfxProps/C11Bits.lean: shift forms (checked/wrapping/overflowing/plain, 12 amount types), rotations, bit counting, signum, next_power_of_two, type constants: model = bit-pattern specification as Outcomes, so the only debug-only panics are the documented ones (shift amount outside 0..n-1, next_power_of_two overflow, signum when +-1 is not representable). The union corpus now also contains the codec family, the plain-operator programs, the primitive From impls and this family.',
         design_ref='7/C11', note=COMMON_NOTE + ' Both profiles use opt-level 1; code generation differences beyond the two flags are outside the model.',
         technique='Lean 4 proof (Outcome discipline) + two-profile differential correspondence'),
     'C12': dict(
